@@ -12,7 +12,7 @@ def observe(h):
             # the start/stop notifications a pause itself causes are not part of the run's outcome
             "notifications": [(n[0], None if n[1] is None else float(n[1]).hex()) for n in h.nlog
                               if n[0] not in ("STARTING_EVENT", "START_EVENT", "STOPPING_EVENT", "STOP_EVENT")],
-            "timeline": [r if r[0] in ("l", "d") else None for r in h.timeline if r[0] in ("l", "d")],
+            "timeline": [r for r in h.timeline if r[0] in ("l", "d", "u")],
             "stats": {k: stat_getters(st) for k, st in sorted(h.stats.items())},
             "clock": float(h.sim.simulator_time).hex(), "state": h.sim.run_state.name}
 
@@ -86,11 +86,18 @@ def main():
                 order_ok = True
                 fan = prog.get("fanout", {})
                 deliveries = {}
+                subscribed = {t: [sp["name"] for sp in fan[t]] for t in fan}
+                expected = {}
                 for r in h.timeline:
                     if r[0] == "l":
-                        deliveries.setdefault((r[1], r[3]), []).append(r[2])
-                for (tname, _), names in deliveries.items():
-                    if names != [sp["name"] for sp in fan[tname]]:
+                        key = (r[1], r[3])
+                        if key not in deliveries:
+                            expected[key] = list(subscribed[r[1]])     # the subscribers at the moment of firing
+                        deliveries.setdefault(key, []).append(r[2])
+                    elif r[0] == "u":
+                        subscribed[r[1]] = [n for n in subscribed[r[1]] if n != r[2]]
+                for key, names in deliveries.items():
+                    if names != expected[key]:
                         order_ok = False
                 res = {"ok": True, "digest": hashlib.sha256(canon.encode()).hexdigest(), "order_ok": order_ok,
                        "n_events": len(ob["trace"]), "n_deliveries": sum(len(v) for v in deliveries.values()),
